@@ -208,6 +208,20 @@ def _defines_closures(func):
     return got[1]
 
 
+_CAPTURED = {}
+
+
+def _captured_names(func):
+    """Own variables of ``func`` that a function defined inside it reads or writes."""
+    got = _CAPTURED.get(id(func))
+    if got is None:
+        body = func.body if isinstance(func.body, list) else [func.body]
+        nested = [n for s_ in body for n in ast.walk(s_) if isinstance(n, FUNC_TYPES + (ast.Lambda,))]
+        own = own_names(func)
+        got = _CAPTURED[id(func)] = (func, tuple(sorted({n_ for f_ in nested for n_ in free_names(f_) if n_ in own})))
+    return got[1]
+
+
 _FREE = {}
 
 
@@ -290,10 +304,10 @@ class Frame:
             return self.cellrefs[name]
         if self.enclosing and isinstance(self.func, FUNC_TYPES + (ast.Lambda,)) and name not in own_names(self.func):
             for e in self.enclosing:
-                if name in own_names(e.func):
-                    return e.prefix + name   # a free variable: the enclosing function's local
                 if name in e.cellrefs:
                     return e.cellrefs[name]
+                if name in own_names(e.func):
+                    return e.prefix + name   # a free variable: the enclosing function's local
         return self.prefix + name
 
 
@@ -647,7 +661,7 @@ class Interp:
                 out.append(r if r.kind == "exc" else val(hook(list(r.value)) if plain else NOTNONE, r.state))
             return out
         if isinstance(e, ast.Lambda):
-            return [val(("func", e), st)]
+            return [val(self._closure_value(e, fr), st)]
         if isinstance(e, (ast.ListComp, ast.SetComp, ast.GeneratorExp, ast.DictComp)):
             eager = self._eager_comprehension(e, st, fr)
             if eager is not None:
@@ -669,7 +683,10 @@ class Interp:
         if isinstance(e, (ast.Yield, ast.YieldFrom, ast.Await)):
             out = []
             inner = e.value
-            for r in (self.eval(inner, st, fr) if inner is not None else [val(NONE, st)]):
+            inner_results = self.eval(inner, st, fr) if inner is not None else [val(NONE, st)]
+            if isinstance(e, ast.YieldFrom):
+                inner_results = self._forced(inner_results, fr)   # yield from map(...): the mapped function runs as the elements are handed on
+            for r in inner_results:
                 if r.kind == "exc":
                     out.append(r)
                 else:
@@ -1046,6 +1063,8 @@ class Interp:
                 return got
         if isinstance(e, ast.Name):
             return fr.local(e.id)
+        if isinstance(e, ast.NamedExpr) and isinstance(e.target, ast.Name):
+            return fr.local(e.target.id)   # (x := ...) tested for truth: what is learnt is about x
         ch = attr_chain(e)
         if ch and fr.selfname and ch[0] == fr.selfname and len(ch) >= 2:
             return fr.self_key + "." + ".".join(ch[1:])
@@ -1260,7 +1279,7 @@ class Interp:
         if isinstance(s, ast.Pass) or isinstance(s, (ast.Import, ast.ImportFrom, ast.Global, ast.Nonlocal)):
             return [("next", None, st)]
         if isinstance(s, FUNC_TYPES):
-            return [("next", None, st.set(fr.local(s.name), ("func", s)))]
+            return [("next", None, st.set(fr.local(s.name), self._closure_value(s, fr)))]
         if isinstance(s, ast.ClassDef):
             return [("next", None, st)]
         if isinstance(s, ast.Break):
@@ -1318,7 +1337,7 @@ class Interp:
                 continue
             seen.add(cur)
             if len(seen) > self.max_states:
-                raise Undecided("loop state set exceeded its budget")
+                raise Undecided(f"loop state set exceeded its budget in the loop at line {s.lineno} of {fr.name}")
             for br, s2 in self.branch(s.test, cur, fr):
                 if br == "exc":
                     out.append(("raise", s2.value, s2.state))
@@ -1358,7 +1377,7 @@ class Interp:
                     continue
                 seen.add((cur, first))
                 if len(seen) > self.max_states:
-                    raise Undecided("loop state set exceeded its budget")
+                    raise Undecided(f"loop state set exceeded its budget in the loop at line {s.lineno} of {fr.name}")
                 may_iter = not (first and kind0 == "empty")
                 may_done = not (first and kind0 == "nonempty")
                 hook = getattr(d, "for_step", None)
@@ -1769,6 +1788,16 @@ class Interp:
         shared = tuple(sorted(shared))
         caller_locals = frozenset((k, v) for k, v in st.items if _is_local(k) and not (shared and k.startswith(shared)))
         entry = State(frozenset((k, v) for k, v in st.items if not _is_local(k) or (shared and k.startswith(shared))), st.log)
+        cell_n = None
+        if getattr(self.domain, "closure_cells", False) and _defines_closures(func):
+            captured = _captured_names(func)
+            if captured:
+                # the variables this function shares with the functions defined in it live in cells from the start:
+                # closures made here stay valid wherever they are handed (returned, passed down, stored)
+                cell_n = entry.get("ev.cells", 0)
+                entry = entry.set("ev.cells", cell_n + 1)
+                for n_ in captured:
+                    fr.cellrefs[n_] = f"cell.{cell_n}.{n_}"
         # a closure whose defining frame has returned: its free variables come from the captured environment;
         # ("ref", key) entries alias a list / dict that still lives in a caller's variable
         env_locals = []
@@ -1832,8 +1861,6 @@ class Interp:
                     # closures leaving their defining frame (returned, or inside a returned object) take the
                     # values of their free variables along
                     own = own_names(func)
-                    if getattr(self.domain, "closure_cells", False):
-                        payload, s2 = self._to_cells(func, fr, payload, s2)
 
                     def close_over(v, depth=0):
                         if isinstance(v, tuple) and len(v) == 2 and v[0] == "func" and isinstance(v[1], FUNC_TYPES + (ast.Lambda,)):
@@ -1849,10 +1876,13 @@ class Interp:
                 for name_, v0, ref in env_locals:
                     if ref is not None and s2.has(fr.local(name_)) and s2.get(fr.local(name_)) != v0:
                         s2 = s2.set(ref, s2.get(fr.local(name_)))
+                finals = {p_: s2.get(fr.local(p_), None) for p_ in mutable_params}
+                if cell_n is not None:
+                    s2 = self._release_cells(cell_n, payload, s2, fr)
                 s3 = s2.drop_prefix(fr.prefix)
                 # a dict handed in by the caller and changed in place: hand the final content back
                 for p_ in mutable_params:
-                    final = s2.get(fr.local(p_), None)
+                    final = finals[p_]
                     if final is not None and final != argvals[p_]:
                         s3 = s3.set("outparam." + p_, final)
                 if kind == "return":
@@ -1872,6 +1902,50 @@ class Interp:
             return [Result(r.kind, r.value, State(r.state.items | caller_locals, r.state.log)) for r in results]
         finally:
             self.in_progress.discard(key)
+
+    @staticmethod
+    def _release_cells(cell_n, payload, st, fr):
+        """A frame that shared variables with its closures returns: unless one of those closures lives on (in the
+        value returned / raised or anywhere in the state outside this frame), its cells go away with it."""
+        prefix = f"cell.{cell_n}."
+
+        def mentions(v, depth=0):
+            if isinstance(v, tuple):
+                if len(v) == 2 and v[0] == "ref" and isinstance(v[1], str) and v[1].startswith(prefix):
+                    return True
+                if depth < 10:
+                    return any(mentions(x, depth + 1) for x in v if isinstance(x, tuple))
+            return False
+        if mentions(payload):
+            return st
+        for k, v in st.items:
+            if k.startswith(fr.prefix) or k.startswith(prefix):
+                continue
+            if mentions(v):
+                return st
+        st = st.drop_prefix(prefix)
+        if st.get("ev.cells", 0) == cell_n + 1:
+            st = st.set("ev.cells", cell_n) if cell_n else State(frozenset((k, v) for k, v in st.items if k != "ev.cells"), st.log)
+        return st
+
+    def _closure_value(self, node, fr):
+        """The value of a lambda / nested def: its code and, under closure cells, references to the cells of the
+        variables it shares with the frames around it."""
+        if not getattr(self.domain, "closure_cells", False):
+            return ("func", node)
+        env = []
+        for n_ in sorted(free_names(node)):
+            key = fr.cellrefs.get(n_)
+            if key is None:
+                for e_ in fr.enclosing:
+                    if n_ in e_.cellrefs:
+                        key = e_.cellrefs[n_]
+                        break
+                    if n_ in own_names(e_.func):
+                        break
+            if key is not None:
+                env.append((n_, ("ref", key)))
+        return ("func", node, tuple(env)) if env else ("func", node)
 
     def _to_cells(self, func, fr, payload, st):
         """Closures leave their defining frame: the variables they share with it (and with each other) move to
